@@ -553,7 +553,7 @@ func (p *Path) where() string {
 }
 
 func shortFile(f string) string {
-	const pre = "/repo/"
+	pre := repoDir + "/"
 	if len(f) > len(pre) && f[:len(pre)] == pre {
 		return f[len(pre):]
 	}
